@@ -129,18 +129,6 @@ func (idx *IndexWriter) WriteToBoltDatabase(db *bbolt.DB) error {
 		return err
 	}
 
-	if err := bucket.Put(keySchema, buf.Bytes()); err != nil {
-		return err
-	}
-
-	var rowIDbuf [4]byte
-
-	binary.BigEndian.PutUint32(rowIDbuf[:], idx.nextRowID)
-
-	if err := bucket.Put(keyNextRowID, rowIDbuf[:]); err != nil {
-		return err
-	}
-
 	i := 0
 
 	for k, v := range idx.values {
@@ -172,6 +160,21 @@ func (idx *IndexWriter) WriteToBoltDatabase(db *bbolt.DB) error {
 
 			bucket = tx.Bucket([]byte("data"))
 		}
+	}
+
+	// The header (schema and row counter) goes into the last transaction: OpenIndex rejects
+	// a file without it, so a file left behind by a crash between two of the transactions
+	// above is never mistaken for a complete index.
+	if err := bucket.Put(keySchema, buf.Bytes()); err != nil {
+		return err
+	}
+
+	var rowIDbuf [4]byte
+
+	binary.BigEndian.PutUint32(rowIDbuf[:], idx.nextRowID)
+
+	if err := bucket.Put(keyNextRowID, rowIDbuf[:]); err != nil {
+		return err
 	}
 
 	if err := tx.Commit(); err != nil {
